@@ -161,6 +161,28 @@ def build(run):
                 return proved("z3-simplify", vcs=n, sample=f"{tag}: sum of all blocks == form on {n} parts")
             run.add(tag, sum_thunk, kind="values")
 
+            # option plumbing of the public wrapper: the all-blocks call returns, block by block, what the single-block call returns,
+            # for both values of replace_argument
+            def plumbing(mkF=mkF, tag=tag, arity=arity, nb=nb):
+                F = mkF()
+                n = 0
+                for repl in (True, False):
+                    allb = extract_blocks(F, replace_argument=repl)
+                    idx = [(a, b) for a in range(nb) for b in range(nb)] if arity == 2 else [(a, None) for a in range(nb)]
+                    for a, b in idx:
+                        got = allb[a][b] if arity == 2 else allb[a]
+                        one = extract_blocks(F, a, b, replace_argument=repl) if arity == 2 else extract_blocks(F, a, replace_argument=repl)
+                        n += 1
+                        # an empty block is None in the list and an empty Form from the single-block call: the same thing
+                        sg = None if (got is None or not got.integrals()) else got.signature()
+                        so = None if (one is None or not one.integrals()) else one.signature()
+                        if sg != so:
+                            return violated(f"{tag}: extract_blocks(F, replace_argument={repl})[{a}]{'' if b is None else f'[{b}]'} is not what "
+                                            f"extract_blocks(F, {a}{'' if b is None else f', {b}'}, replace_argument={repl}) returns: {str(got)[:200]} vs {str(one)[:200]}",
+                                            replay={"block": [a, b], "replace_argument": repl, "all": str(got)[:600], "single": str(one)[:600]}, reproduced=True, backend="exec")
+                return proved("exec", vcs=n, sample=f"{tag}: all-blocks call == single-block calls for replace_argument in (True, False)")
+            run.add(tag.replace("sum-of-blocks", "all-blocks-vs-single-blocks"), plumbing, kind="values")
+
     def forms2(v, u):
         (vu, vp), (uu, up) = split(v), split(u)
         yield "stokes", lambda: (inner(grad(uu), grad(vu)) - div(vu) * up - div(uu) * vp) * dx
